@@ -112,6 +112,10 @@ func xmlEsc(s string, attr bool) string {
 			} else {
 				sb.WriteRune(r)
 			}
+		case '\r':
+			// a literal carriage return is normalised to a line feed by every XML parser, in text and in
+			// attribute values alike: the document that denotes a CR spells it as a character reference
+			sb.WriteString("&#xD;")
 		default:
 			sb.WriteRune(r)
 		}
